@@ -166,54 +166,56 @@ class _Quadrature(torch.autograd.Function):
         params = allparams[:nparams]
         fcn = ctx.fcn
 
-        with fcn.disable_state_change():
+        # restore xl, and xu
+        xlxu_tensor = ctx.saved_tensors[:nxlxu]
+        if ctx.xltensor and ctx.xutensor:
+            xl, xu = xlxu_tensor
+        elif ctx.xltensor:
+            xl = xlxu_tensor[0]
+            xu = ctx.xlxu_nontensor[0]
+        elif ctx.xutensor:
+            xu = xlxu_tensor[0]
+            xl = ctx.xlxu_nontensor[0]
+        else:
+            xl, xu = ctx.xlxu_nontensor
 
-            # restore xl, and xu
-            xlxu_tensor = ctx.saved_tensors[:nxlxu]
-            if ctx.xltensor and ctx.xutensor:
-                xl, xu = xlxu_tensor
-            elif ctx.xltensor:
-                xl = xlxu_tensor[0]
-                xu = ctx.xlxu_nontensor[0]
-            elif ctx.xutensor:
-                xu = xlxu_tensor[0]
-                xl = ctx.xlxu_nontensor[0]
+        # calculate the gradient for the boundaries
+        grad_xl = -torch.dot(grad_ys.reshape(-1), fcn(xl, *params).reshape(-1)
+                             ).reshape(xl.shape) if ctx.xltensor else None
+        grad_xu = torch.dot(grad_ys.reshape(-1), fcn(xu, *params).reshape(-1)
+                            ).reshape(xu.shape) if ctx.xutensor else None
+
+        def new_fcn(x, *grad_y_params):
+            grad_ys = grad_y_params[0]
+            # the derivatives are taken w.r.t. copies of the tensors that are independent
+            # of each other (a tensor, explicit or held by the function's object, may
+            # have been computed from another one)
+            with torch.enable_grad():
+                tensor_params_copy = [p.clone().requires_grad_() for p in grad_y_params[1:]]
+                allparams_copy = ctx.param_sep.reconstruct_params(tensor_params_copy)
+                with fcn.useobjparams(allparams_copy[nparams:]):
+                    f = fcn(x, *allparams_copy[:nparams])
+            if f.requires_grad:
+                dfdts = torch.autograd.grad(f, tensor_params_copy,
+                                            grad_outputs=grad_ys,
+                                            retain_graph=True,
+                                            create_graph=torch.is_grad_enabled(),
+                                            allow_unused=True)
             else:
-                xl, xu = ctx.xlxu_nontensor
+                dfdts = [None for _ in tensor_params_copy]
+            # tensors that do not influence the integrand get a zero gradient
+            dfdts = convert_none_grads_to_zeros(dfdts, tensor_params_copy)
+            return dfdts
 
-            # calculate the gradient for the boundaries
-            grad_xl = -torch.dot(grad_ys.reshape(-1), fcn(xl, *params).reshape(-1)
-                                 ).reshape(xl.shape) if ctx.xltensor else None
-            grad_xu = torch.dot(grad_ys.reshape(-1), fcn(xu, *params).reshape(-1)
-                                ).reshape(xu.shape) if ctx.xutensor else None
+        # reconstruct grad_params
+        # listing tensor_params in the params of quad to make sure it gets
+        # the gradient calculated
+        dydts = quad(new_fcn, xl, xu, params=(grad_ys, *tensor_params),
+                     bck_options=ctx.bck_config, **ctx.bck_config)
+        dydns = [None for _ in range(ctx.param_sep.nnontensors())]
+        grad_params = ctx.param_sep.reconstruct_params(dydts, dydns)
 
-            def new_fcn(x, *grad_y_params):
-                grad_ys = grad_y_params[0]
-                # not setting objparams and params because the params and objparams
-                # are still the same objects as the objects outside
-                with torch.enable_grad():
-                    f = fcn(x, *params)
-                if f.requires_grad:
-                    dfdts = torch.autograd.grad(f, tensor_params,
-                                                grad_outputs=grad_ys,
-                                                retain_graph=True,
-                                                create_graph=torch.is_grad_enabled(),
-                                                allow_unused=True)
-                else:
-                    dfdts = [None for _ in tensor_params]
-                # tensors that do not influence the integrand get a zero gradient
-                dfdts = convert_none_grads_to_zeros(dfdts, tensor_params)
-                return dfdts
-
-            # reconstruct grad_params
-            # listing tensor_params in the params of quad to make sure it gets
-            # the gradient calculated
-            dydts = quad(new_fcn, xl, xu, params=(grad_ys, *tensor_params),
-                         bck_options=ctx.bck_config, **ctx.bck_config)
-            dydns = [None for _ in range(ctx.param_sep.nnontensors())]
-            grad_params = ctx.param_sep.reconstruct_params(dydts, dydns)
-
-            return (None, grad_xl, grad_xu, None, None, None, None, None, *grad_params)
+        return (None, grad_xl, grad_xu, None, None, None, None, None, *grad_params)
 
 def _isinf(x):
     return torch.any(torch.isinf(x))
